@@ -65,6 +65,61 @@ fn is_skipped_query_string(name: &str) -> bool {
     name == "X-Amz-Signature"
 }
 
+/// pushes a header value: trimmed, sequential spaces converted to a single space
+fn push_canonical_header_value(ans: &mut String, value: &str) {
+    let mut prev_space = false;
+    for c in value.trim().chars() {
+        if c == ' ' {
+            if !prev_space {
+                ans.push(c);
+            }
+            prev_space = true;
+        } else {
+            ans.push(c);
+            prev_space = false;
+        }
+    }
+}
+
+/// `<CanonicalHeaders>`: one line per header name, the values of a repeated header are joined by commas
+fn push_canonical_headers(ans: &mut String, signed_headers: &OrderedHeaders<'_>) {
+    let mut prev_name: Option<&str> = None;
+    for &(name, value) in signed_headers.as_ref() {
+        if is_skipped_header(name) {
+            continue;
+        }
+        if prev_name == Some(name) {
+            ans.push(',');
+        } else {
+            if prev_name.is_some() {
+                ans.push('\n');
+            }
+            ans.push_str(name);
+            ans.push(':');
+        }
+        push_canonical_header_value(ans, value);
+        prev_name = Some(name);
+    }
+    if prev_name.is_some() {
+        ans.push('\n');
+    }
+}
+
+/// `<SignedHeaders>`: each header name once
+fn push_signed_header_names(ans: &mut String, signed_headers: &OrderedHeaders<'_>) {
+    let mut prev_name: Option<&str> = None;
+    for &(name, _) in signed_headers.as_ref() {
+        if is_skipped_header(name) || prev_name == Some(name) {
+            continue;
+        }
+        if prev_name.is_some() {
+            ans.push(';');
+        }
+        ans.push_str(name);
+        prev_name = Some(name);
+    }
+}
+
 /// sha256 hash of an empty string
 const EMPTY_STRING_SHA256_HASH: &str = "e3b0c44298fc1c149afbf4c8996fb92427ae41e4649b934ca495991b7852b855";
 
@@ -140,32 +195,13 @@ pub fn create_canonical_request(
 
         // FIXME: check HOST, Content-Type, x-amz-security-token, x-amz-content-sha256
 
-        for &(name, value) in signed_headers.as_ref() {
-            if is_skipped_header(name) {
-                continue;
-            }
-            ans.push_str(name);
-            ans.push(':');
-            ans.push_str(value.trim());
-            ans.push('\n');
-        }
+        push_canonical_headers(&mut ans, signed_headers);
         ans.push('\n');
     }
 
     {
         // <SignedHeaders>\n
-        let mut first_flag = true;
-        for &(name, _) in signed_headers.as_ref() {
-            if is_skipped_header(name) {
-                continue;
-            }
-            if first_flag {
-                first_flag = false;
-            } else {
-                ans.push(';');
-            }
-            ans.push_str(name);
-        }
+        push_signed_header_names(&mut ans, signed_headers);
 
         ans.push('\n');
     }
@@ -352,31 +388,12 @@ pub fn create_presigned_canonical_request(
     {
         // <CanonicalHeaders>\n
 
-        for &(name, value) in signed_headers.as_ref() {
-            if is_skipped_header(name) {
-                continue;
-            }
-            ans.push_str(name);
-            ans.push(':');
-            ans.push_str(value.trim());
-            ans.push('\n');
-        }
+        push_canonical_headers(&mut ans, signed_headers);
         ans.push('\n');
     }
     {
         // <SignedHeaders>\n
-        let mut first_flag = true;
-        for &(name, _) in signed_headers.as_ref() {
-            if is_skipped_header(name) {
-                continue;
-            }
-            if first_flag {
-                first_flag = false;
-            } else {
-                ans.push(';');
-            }
-            ans.push_str(name);
-        }
+        push_signed_header_names(&mut ans, signed_headers);
 
         ans.push('\n');
     }
